@@ -186,7 +186,7 @@ def generate(tier, seed):
                                 "from_integer/wide")
         for v in sorted(allv):
             add("to_chars_all ty=%s v=%d" % (ty, venc(v)), "to_chars_all/wide")
-        for _ in range(20000 if thorough else 1500):
+        for _ in range(50000 if thorough else 1500):
             v = rnd.randint(*limits(ty))
             add("round_trip ty=%s v=%d base=%d" % (ty, venc(v), rnd.randint(2, 36)), "round_trip")
     # ---- to_string<Capacity>
@@ -227,7 +227,7 @@ def generate(tier, seed):
                 add("from_chars ty=%s s=%s base=%d" % (ty, enc(t), b), "from_chars/limits")
                 if rnd.random() < 0.5:
                     add("to_integer ty=%s s=%s base=%d ws=%d" % (ty, enc(t), b, rnd.randint(0, 1)), "to_integer/limits")
-    for _ in range(150000 if thorough else 15000):
+    for _ in range(400000 if thorough else 15000):
         ty = rnd.choice(list(TYPES))
         b = rnd.randint(2, 36)
         t = random_text(b, rnd)
